@@ -120,6 +120,24 @@ def correspondence(ctx):
                 ctx.corr("display_image(scaling)", "displayscale %s %s " % (f2b(lo), f2b(hi)) + fl(vals.ravel()),
                          impl_call(lambda: display_image(data_grid(vals, spacing=0.1), scaling='auto' if auto else (lo, hi)).values.ravel()), tol=1e-14,
                          inputs=dict(shape=[nx, ny], auto=auto))
+            elif k == 3 and (i // 5) % 2 == 1:
+                # dict_to_array: per-channel metadata written as a dictionary, keys and image channels in independent orders
+                from holopy.core.metadata import dict_to_array
+                allc = ['red', 'green', 'blue', 'ir']
+                labels = [str(l) for l in rng.permutation(allc)[:int(rng.integers(2, 5))]]
+                keys = [str(l) for l in rng.permutation(labels)]
+                if rng.random() < 0.15:
+                    keys[0] = 'uv'                      # not a channel of the image: refused
+                vals = {kk: round(float(rng.uniform(0.4, 0.7)), 6) for kk in keys}
+                schema = detector_grid(2, 0.1, extra_dims={'illumination': labels})
+
+                def call():
+                    r = dict_to_array(schema, dict(vals))
+                    d = r.dims[0]
+                    return "%s:%s|%s ; by-label: %s" % (d, ",".join(str(c) for c in r[d].values), ",".join(repr(float(v)) for v in r.values),
+                                                         " ".join("%s=%r" % (l, float(r.sel(**{d: l}))) for l in sorted(labels)))
+                ctx.corr("dict_to_array", "dicttoarray 1 illumination %d %s | %s" % (len(labels), " ".join(labels), " ".join("%s %r" % (kk, vals[kk]) for kk in keys)),
+                         impl_call(call), kind="exact", inputs=dict(labels=labels, keys=keys))
             elif k == 3:
                 # update_metadata: only the named fields change
                 a = rand_attrs(rng)
@@ -192,10 +210,15 @@ def search(ctx):
                 shape = (nx, ny) if nch == 1 else (nx, ny, nch)
                 vals = (rng.normal(size=shape) * 5).astype(dtype) if dtype is not complex else rng.normal(size=shape) + 1j * rng.normal(size=shape)
                 meta = {}
+                requested = {}
                 if nch > 1 and rng.random() < 0.7:
-                    meta['illum_wavelen'] = {l: float(rng.uniform(0.4, 0.7)) for l in labels} if rng.random() < 0.5 else \
+                    # dictionaries are written in an order independent of the image's channel order
+                    korder = [str(l) for l in rng.permutation(labels)]
+                    meta['illum_wavelen'] = {l: float(rng.uniform(0.4, 0.7)) for l in korder} if rng.random() < 0.5 else \
                         xr.DataArray([float(rng.uniform(0.4, 0.7)) for _ in labels], dims=['illumination'], coords={'illumination': labels})
-                    meta['noise_sd'] = {l: float(rng.uniform(0.01, 0.2)) for l in labels} if rng.random() < 0.5 else float(rng.uniform(0.01, 0.2))
+                    korder = [str(l) for l in rng.permutation(labels)]
+                    meta['noise_sd'] = {l: float(rng.uniform(0.01, 0.2)) for l in korder} if rng.random() < 0.5 else float(rng.uniform(0.01, 0.2))
+                    requested = {kk: dict(v) for kk, v in meta.items() if isinstance(v, dict)}
                 else:
                     meta['illum_wavelen'] = float(rng.uniform(0.4, 0.7)) if rng.random() < 0.8 else None
                     meta['noise_sd'] = float(rng.uniform(0.01, 0.2)) if rng.random() < 0.5 else None
@@ -203,6 +226,22 @@ def search(ctx):
                 im = data_grid(vals, spacing=sp, medium_index=float(rng.uniform(1, 1.6)), illum_polarization=(0.6, 0.8) if rng.random() < 0.5 else None,
                                name=name, extra_dims={'illumination': labels} if nch > 1 else None, **meta)
                 info = dict(kind="h5", shape=list(shape), dtype=dtype.__name__, channels=nch, name=name)
+                # per-channel metadata given as dictionaries is attached to the channel named by the key
+                for kk, want in requested.items():
+                    ctx.tried("dict-metadata", (kk, tuple(want), tuple(labels), i))
+                    got = {l: float(im.attrs[kk].sel(illumination=l)) for l in labels}
+                    if got != want:
+                        ctx.violation("C16:dict-metadata:data_grid", "data_grid(%s=%r) on channels %r stores %r" % (kk, want, labels, got), dict(info, kind="dict-metadata", field=kk))
+                if nch > 1:
+                    korder = [str(l) for l in rng.permutation(labels)]
+                    wantw = {l: float(rng.uniform(0.4, 0.7)) for l in korder}
+                    wantn = {l: float(rng.uniform(0.01, 0.2)) for l in [str(l) for l in rng.permutation(labels)]}
+                    upd = update_metadata(im, illum_wavelen=dict(wantw), noise_sd=dict(wantn))
+                    ctx.tried("dict-metadata", ("update", tuple(korder), tuple(labels), i))
+                    for kk, want in (("illum_wavelen", wantw), ("noise_sd", wantn)):
+                        got = {l: float(upd.attrs[kk].sel(illumination=l)) for l in labels}
+                        if got != want:
+                            ctx.violation("C16:dict-metadata:update_metadata", "update_metadata(%s=%r) on channels %r stores %r" % (kk, want, labels, got), dict(info, kind="dict-metadata", field=kk))
                 ctx.tried("h5", (shape, dtype.__name__, nch, i))
                 cur = im
                 ncycles = int(rng.integers(1, 4))
